@@ -449,17 +449,31 @@ func runCheck(args []string) int {
 			byID[o.ID] = o
 		}
 		seenKey := map[string]bool{}
-		for i, ce := range hr.CEs {
+		// first pass: which labels have at least one natively confirmed counterexample
+		confirmedByLabel := map[string]bool{}
+		isConfirmed := func(i int, ce ssaexec.CounterExample) (bool, nativeOutcome) {
 			o, ok := byID[fmt.Sprintf("ce%d", i)]
-			confirmed := false
-			if ok {
-				if ce.Kind == "assert" {
-					confirmed = containsStr(o.Failed, ce.Label)
-				} else {
-					confirmed = o.Panic != ""
-				}
+			if !ok {
+				return false, o
 			}
+			if ce.Kind == "assert" {
+				return containsStr(o.Failed, ce.Label), o
+			}
+			return o.Panic != "", o
+		}
+		for i, ce := range hr.CEs {
+			if c, _ := isConfirmed(i, ce); c {
+				confirmedByLabel[ce.Label] = true
+			}
+		}
+		for i, ce := range hr.CEs {
+			confirmed, o := isConfirmed(i, ce)
 			if !confirmed {
+				if confirmedByLabel[ce.Label] {
+					// another counterexample of the same assertion reproduces; this one is
+					// not observable natively (e.g. the OS refuses the operation)
+					continue
+				}
 				ev.Unconfirmed++
 				fmt.Printf("UNCONFIRMED harness=%s label=%s (native: failed=%v panic=%q infeasible=%v)\n", h.Name, ce.Label, o.Failed, o.Panic, o.Infeasible)
 				continue
